@@ -171,6 +171,15 @@ theorem C18_pem_text (key : Bytes) :
   obtain ⟨l, h1, h2⟩ := lbWriteAll_inv (encWrites (key.length + 1) key) _ _ h0
   rw [h1, Res.bind_ok, lbClose_inv l _ h2, List.nil_append, encWrites_flatten _ _ (by omega)]
 
+/-- The hashed text is an INJECTIVE function of the profile key: two different keys are never hashed to the same
+    message, so (short of a SHA-256 collision or an RSA forgery) a signature the services key issued for one
+    profile key does not verify for another. -/
+theorem C18_pem_injective (a b : Bytes) (h : pemText a = pemText b) : a = b := by
+  rw [C18_pem_text, C18_pem_text] at h
+  have h1 := List.append_cancel_right (Res.ok.inj h)
+  have h2 := List.append_cancel_left h1
+  exact b64Std_inj a b (wrapLines_inj _ _ (b64Std_no_nl a) (b64Std_no_nl b) h2)
+
 /-- `VerifySignature` never panics: it returns exactly RSA's verdict on that text -/
 theorem C18_verify_eq {Key : Type} (sha256 : Bytes → Bytes) (rsaVerify : Key → Bytes → Bytes → Bool)
     (mojangKey : Key) (key sig : Bytes) :
